@@ -7,7 +7,7 @@ s = open(p).read()
 i = s.index("## 8. Sensitivity: independently seeded breakages")
 notes = json.load(open(os.path.join(HERE, "tools", "seed_notes.json")))
 last = {r["id"]: r for r in json.load(open(os.path.join(HERE, "seeded", "last_run.json")))}
-rows, missed, built, neigh, bydesign, outside = [], 0, 0, [], [], []
+rows, missed, built, neigh, bydesign, outside, open_ = [], 0, 0, [], [], [], []
 per_round = {}
 for sid in sorted(last):
     r = last[sid]
@@ -29,6 +29,9 @@ for sid in sorted(last):
         per_round[rnd][0] += 1
         if any(c["violation"] for q, c in r["checks"].items() if q != own):
             neigh.append(sid)
+    elif n.get("open") and not any(c["violation"] for c in r["checks"].values()):
+        first = "**missed and still open** — " + n.get("note", "")
+        open_.append(sid)
     elif not r["checks"].get(own, {}).get("violation"):
         first = "not visible to %s by construction; caught by the property that owns the clause" % own
         bydesign.append(sid)
@@ -54,7 +57,7 @@ edit). Failing cases of these runs go to a throw-away directory (`VERIF_NEW_REPL
 `seeded/<id>/` holds patch, demo and meta (what it needs to manifest, what was run, which sub-checks fired);
 `seeded/RESULTS.md` is the full table, `seeded/last_run.json` the raw results.
 
-Outcome: OUTSIDE_TEXT%d of %d are caught by the quick tier — %d by the property they were aimed at, %d (%s) only by the
+Outcome: OUTSIDE_TEXTOPEN_TEXT%d of %d are caught by the quick tier — %d by the property they were aimed at, %d (%s) only by the
 property that owns the broken clause:
 
 BYDESIGN_LIST
@@ -86,8 +89,9 @@ that another property owns — those are listed above and are caught there). The
 
 | seed | change (abridged) | caught by (quick tier) | history |
 |---|---|---|---|
-""" % (total, len(per_round), total - len(outside), total, total - len(bydesign) - len(outside), len(bydesign), ", ".join(bydesign), built, missed, len(neigh), rounds) + "\n".join(rows) + "\n"
+""" % (total, len(per_round), total - len(outside) - len(open_), total, total - len(bydesign) - len(outside) - len(open_), len(bydesign), ", ".join(bydesign), built, missed, len(neigh), rounds) + "\n".join(rows) + "\n"
 new = new.replace("OUTSIDE_TEXT", ("%s (%s) is not caught at all and is not meant to be: %s. " % (", ".join(outside), "1 seed" if len(outside) == 1 else "%d seeds" % len(outside), "; ".join(notes[k]["note"] for k in outside))) if outside else "")
+new = new.replace("OPEN_TEXT", ("%d seeds of the last round (%s) are **not caught by any check** and were not closed in the time that remained; what each needs is in the table. " % (len(open_), ", ".join(open_))) if open_ else "")
 new = new.replace("BYDESIGN_LIST\n", "".join("* %s — %s\n" % (k, notes.get(k, {}).get("note", "")) for k in bydesign) + "\n")
 open(p, "w").write(s[:i] + new)
 print(total, "seeds; missed first:", missed, "as built:", built, "by design elsewhere:", bydesign, "per round:", per_round)
